@@ -27,6 +27,10 @@ var vhC11Opts = []struct {
 	{"{% include NAME with {'a': wv, 'w': a} %}", true, false, false},
 	{"{% include NAME with {'w': a, 'a': wv} only %}", true, true, false},
 	{"{% include NAME with {'a': a ~ '1', 'w': a ~ '2', 'b': a ~ '3'} %}", true, false, false},
+	// a with-value that is null / undefined / a missing attribute still hides the includer's variable
+	{"{% include NAME with {'a': null, 'w': wv} %}", true, false, false},
+	{"{% include NAME with {'w': wv, 'a': nosuchvar, 'b': a.nosuchattr} %}", true, false, false},
+	{"{% include NAME with {'a': null, 'w': wv} only %}", true, true, false},
 }
 
 var vhC11Sites = []string{
@@ -128,6 +132,10 @@ func VH_C11_Include() {
 			sa, sw = wv, av
 		case 10:
 			sa, sw, sb = av+"1", av+"2", av+"3"
+		case 11, 13:
+			sa = ""
+		case 12:
+			sa, sb = "", ""
 		}
 	}
 	want := probe + "[a=" + sa + ";b=" + sb + ";w=" + sw + ";s=]K" + probe
